@@ -49,6 +49,8 @@ def instance(rng, e: dict, sexp: dict, mode: str = "random", depth: int = 0) -> 
         return prim(rng, e)
     if e.get("nullable") and (mode == "nulls" or (mode == "random" and rng.random() < 0.25)):
         return None      # any type expression may be nullable (richgen)
+    if k == "prim_union":
+        return prim(rng, {"kind": rng.choice(e["of"]), "format": None})
     if k == "free_form":
         return free_form(rng, e.get("variant", "any"), depth) if mode != "max" else FREE[0]
     if k == "enum_inline":
